@@ -26,73 +26,16 @@ func bigNZ(x string) []string {
 }
 
 func checkC03(c *Ctx, r *Report) {
-	r.Explanation = "Guard inventory (G4) with canonical value naming on the dominator path: every side condition the statement lists is a rejecting guard that dominates the only true-capable return of VerifyHashed (five length guards; r,s >= 1; r,s < n with n the resolved curve order; t = (r+s) mod n non-zero; the public key decoded exclusively through the canonical on-curve decoder fed by 0x04||pubx||puby; the scalar multiplication wired as [s]G + [t]P with t padded to 32 bytes; the result rejected when it is the point at infinity), every failing arm returns false, and the returned verdict is the expression ((e + x1) mod n == r). The decoders' own inventories ((*SM2Point).SetBytes: length+tag, both coordinates canonical, on curve, receiver written only after all guards; SM2Element.SetBytes: length and <= p-1) are part of the claim. NOT decided: the values of the group operations (C14-C16)."
-	r.Trusted = []string{"go/ssa", "math/big method semantics (Cmp, Sign, Add, Mod, SetBytes)"}
+	r.Explanation = "Decided on the outcomes of a path-by-path interpretation of sm2.VerifyHashed in the protocol domain (checker/proto*.go): on every outcome that can return true, VERIFY-LENGTHS (all five inputs are 32 bytes), VERIFY-RANGE (1 <= r, s <= n-1 follow from the path condition by the LP), VERIFY-T (the point scalar is the non-zero canonical residue of r+s), VERIFY-PUBKEY (P is the successfully decoded 04 || pubx || puby), VERIFY-POINT (x1 comes from [s]G + [t]P with base-point scalar s), VERIFY-FINITE (infinity excluded before its x is used), VERIFY-VERDICT (the returned boolean is ((e + x1) mod n) == r with a canonical left side), VERIFY-ERROR-NIL; plus the decoder inventories (canonical on-curve decoding, infinity predicate) shared with C12/C15/C16. The statements are about values and path conditions, not about the spelling of guards or the split into helpers. NOT decided: the values of the scalar multiplication (C14) and the group law (C15)."
+	r.Trusted = []string{"go/ssa", "contracts of math/big as summarised in checker/proto2.go", "internal.ScalarMixedMult_Unsafe returns [g]G + [t]P for 32-byte scalars (C14)"}
 	p, err := LoadRepo(c.Repo, "amd64")
 	if err != nil {
 		r.Fatalf("%v", err)
 		return
 	}
-	f := NewFolder(p)
-	fn := p.MustFunc(r, "sm2.VerifyHashed")
-	if fn == nil {
-		return
-	}
-	// the only return whose first result is not the constant false
-	var accept []*ssa.Return
-	for _, b := range fn.Blocks {
-		if ret, ok := b.Instrs[len(b.Instrs)-1].(*ssa.Return); ok {
-			if !isFalseConst(retVals(ret)[0]) {
-				accept = append(accept, ret)
-			} else {
-				r.Count("reject_returns", 1)
-			}
-		}
-	}
-	if len(accept) != 1 {
-		r.Viol("SINGLE-ACCEPT", "sm2.VerifyHashed", p.Pos(fn.Pos()), fmt.Sprintf("%d returns can yield true; exactly one is expected", len(accept)))
-		return
-	}
-	ret := accept[0]
-	ps := newPathSym(p, fn, f)
-	ps.WalkTo(ret.Block())
-	T := xf("Int.Mod", xc("Int.Add", xR, xS), "N")
-	PUB := xf("SM2Point.SetBytes", "4||pubx||puby")
-	RES := xf("ScalarMixedMult_Unsafe", "s", PUB, xf("ensure32Bytes", T))
-	reqs := []guardReq{
-		{"(len(pubx), =, 32)", []string{"len(pubx) == 32"}, "false"},
-		{"(len(puby), =, 32)", []string{"len(puby) == 32"}, "false"},
-		{"(len(e), =, 32)", []string{"len(e) == 32"}, "false"},
-		{"(len(r), =, 32)", []string{"len(r) == 32"}, "false"},
-		{"(len(s), =, 32)", []string{"len(s) == 32"}, "false"},
-		{"(r, >=, 1)", bigGE1(xR), "false"},
-		{"(s, >=, 1)", bigGE1(xS), "false"},
-		{"(r, <, N)", bigLT(xR, "N"), "false"},
-		{"(s, <, N)", bigLT(xS, "N"), "false"},
-		{"(t = (r+s) mod n, !=, 0)", bigNZ(T), "false"},
-		{"(pub, canonical on-curve decoder, error)", []string{"err(" + PUB + ") == nil"}, "false"},
-		{"([s]G+[t]P, error)", []string{"err(" + RES + ") == nil"}, "false"},
-		{"([s]G+[t]P, infinity, reject)", []string{"!" + xf("SM2Point.IsInfinity", RES), xf("SM2Element.IsZero", "*"+RES+".z") + " != 1", "len(" + xf("SM2Point.Bytes", RES) + ") != 1"}, "false"},
-	}
-	checkInventory(r, p, ps, "sm2.VerifyHashed", p.InstrPos(ret), reqs, nil)
-	// the verdict expression
-	X1 := xf("SM2Point.GetAffineX", RES)
-	lhs := xf("Int.Mod", xc("Int.Add", X1, xE), "N")
-	wantV := []string{"(" + xf("Int.Cmp", lhs, xR) + " == 0)", "(" + xf("Int.Cmp", xR, lhs) + " == 0)"}
-	got := normText(ps.S(retVals(ret)[0]))
-	okV := false
-	for _, w := range wantV {
-		if got == w {
-			okV = true
-		}
-	}
-	r.Check(okV, "VERDICT-EXPRESSION", "sm2.VerifyHashed", p.InstrPos(ret), "returned verdict is "+got+"; the standard's equation is (e + x1) mod n == r with x1 the affine x of [s]G+[t]P")
-	r.Check(isNilConst(retVals(ret)[1]), "VERDICT-EXPRESSION", "sm2.VerifyHashed error on accept", p.InstrPos(ret), "the accepting return carries a nil error")
-	// wrappers: decided under C13 (referenced)
-	c03Decoders(r, p, f)
-	// the named predicates the accepted guard spellings rely on must mean what their names say
-	checkPredicateDefs(r, p, f)
-	r.Floor("required_guards", 13)
+	protoVerifyHashed(r, p)
+	protoDecoders(r, p)
+	r.Floor("protocol_paths", 12)
 }
 
 // checkPredicateDefs: the inventory accepts guards spelled through repository predicates (IsInfinity, IsZero); their own
